@@ -3,6 +3,7 @@ from .domain import IntV, RefV, VecV
 from .interp import Interp, State
 from .models import Models
 from . import models2  # noqa: F401  (installs the second tranche of std contracts)
+from . import models3  # noqa: F401  (constant strings; must come after models2)
 
 
 def field_bits(fixed, sb, eb, value):
